@@ -164,6 +164,19 @@ func (mk *TimeBucketKey) GetTimeFrame() (tf *utils.Timeframe, err error) {
 	return tf, nil
 }
 
+// Validate reports an error unless every item of the key is a plain directory name.
+// The items are joined into a path below the root directory, so an empty item, ".", ".."
+// or an item containing a path separator or a NUL byte must not reach the file system.
+func (mk *TimeBucketKey) Validate() error {
+	for _, item := range mk.GetItems() {
+		if item == "" || item == "." || item == ".." ||
+			strings.ContainsRune(item, filepath.Separator) || strings.ContainsRune(item, 0) {
+			return fmt.Errorf("invalid item %q in bucket key %q", item, mk.GetItemKey())
+		}
+	}
+	return nil
+}
+
 func (mk *TimeBucketKey) GetPathToYearFiles(rootDir string) string {
 	return filepath.Join(rootDir, mk.GetItemKey())
 }
